@@ -773,7 +773,12 @@ class Gen:
                 vals_ok = all(round(v) + 1 < n for v in vals)
                 two = vals_ok
             # a float end that is exactly half way is outside the covered domain: avoid it here
-            if any(isinstance(v, float) and abs(v - round(v)) == 0.5 for v in vals):
+            # (also a value like 14.500000000000002 -- the sum an interpolating loop arrives at -- whose successor 15.5.. + 1
+            # rounds to a tie: what is sent is round(b + 1), what is denoted round(b) + 1)
+            def off_domain(v):
+                ends = [v] + ([v + 1] if two else [])
+                return isinstance(v, float) and (abs(v - round(v)) == 0.5 or any(round(b + 1) != round(b) + 1 for b in ends))
+            if any(off_domain(v) for v in vals):
                 hdr, vals = 'repeat with z from 0 to %d' % (n - 1 - (1 if two else 0)), list(range(0, n - (1 if two else 0)))
             body = []
             if lc:
